@@ -15,6 +15,7 @@ import (
 
 	"github.com/cloudwego/hertz/pkg/app"
 	"github.com/cloudwego/hertz/pkg/app/middlewares/server/recovery"
+	"github.com/cloudwego/hertz/pkg/app/server/render"
 	"github.com/cloudwego/hertz/pkg/common/config"
 	"github.com/cloudwego/hertz/pkg/network/standard"
 	"github.com/cloudwego/hertz/pkg/protocol"
@@ -211,8 +212,22 @@ func dump(ctx *app.RequestContext) (string, int) {
 			sb.WriteString(" " + k)
 		}
 	}
+	// and of the response the handler is about to fill; which render ctx.HTML would use
+	sb.WriteString("\nresponse-present:")
+	for _, k := range []string{"Content-Encoding", "Server", "Content-Length", "Content-Type", "Set-Cookie", "Connection", "Trailer", "X-Absent"} {
+		if ctx.Response.Header.Peek(k) != nil {
+			sb.WriteString(" " + k)
+		}
+	}
+	fmt.Fprintf(&sb, "\nhtmlrender=%T", ctx.HTMLRender)
 	return sb.String(), n
 }
+
+// dirtyRender is an HTML render a handler installs for its own request.
+type dirtyRender struct{}
+
+func (dirtyRender) Instance(name string, data interface{}) render.Render { return render.Data{} }
+func (dirtyRender) Close() error                                         { return nil }
 
 type mcall struct {
 	tg   int
@@ -279,6 +294,9 @@ type slot struct {
 	panicInForEachKey bool
 	// setCtxFuncs: the dirty handler installs its own ClientIP / FormValue functions on its context
 	setCtxFuncs bool
+	// setRespSlots: the dirty handler sets the response fields kept in dedicated slots
+	// (Content-Encoding, Server) and its own HTML render
+	setRespSlots bool
 }
 
 type harness struct {
@@ -327,6 +345,12 @@ func newHarnessMode(stream bool) *harness {
 				// per-request overrides of how the client address and form values are looked up
 				ctx.SetClientIPFunc(func(*app.RequestContext) string { return "6.6.6.6" })
 				ctx.SetFormValueFunc(func(*app.RequestContext, string) []byte { return []byte("LEAKED") })
+			}
+			if s.setRespSlots {
+				ctx.Response.Header.Set("Content-Encoding", "identity")
+				ctx.Response.Header.Set("Server", "dirty-server")
+				ctx.Response.Header.Set("Content-Type", "text/dirty")
+				ctx.HTMLRender = dirtyRender{}
 			}
 			if s.panicInForEachKey {
 				ctx.Set("dirty-key", 1)
@@ -502,6 +526,7 @@ func work(w *mon.W) {
 		s.writeErr = -1
 		s.panicInForEachKey = r.Chance(10)
 		s.setCtxFuncs = r.Chance(8)
+		s.setRespSlots = r.Chance(6)
 		s.keepCopy = r.Chance(4)
 		if s.keepCopy {
 			w.Count("dirty_requests_whose_copy_is_kept_and_written_later", 1)
